@@ -341,6 +341,20 @@ func main() {
 			}
 		}
 	}
+	// long single writes of the generator (a static text literal, a top-level Go block) with a multi-byte character at
+	// every offset of a window around 4 KiB (and 8 KiB in thorough), followed by expressions: position tracking that
+	// works on chunks of a write has its boundary inside such a write
+	windows := [][2]int{{3700, 4400}}
+	if run.Thorough() {
+		windows = append(windows, [2]int{7800, 8500}, [2]int{65200, 65700})
+	}
+	for _, w := range windows {
+		for pad := w[0]; pad <= w[1]; pad++ {
+			fill := strings.Repeat("x", pad)
+			progs = append(progs, prog{fmt.Sprintf("long text literal, é after %d bytes", pad), "package p\n\ntempl T(x string) {\n\t<div>" + fill + "é€ { x } tail { pick(\"é\", x) }</div>\n}\n"})
+			progs = append(progs, prog{fmt.Sprintf("long top-level Go block, é after %d bytes", pad), "package p\n\n// " + fill + "é€\nfunc helper(x string) string {\n\treturn x\n}\n\ntempl T(x string) {\n\t<b>{ helper(x) }</b>\n}\n"})
+		}
+	}
 	// thorough: pairs of slots in one file (two templates), so that earlier expressions shift later ones
 	if run.Thorough() {
 		for i, a := range slots {
